@@ -45,15 +45,31 @@ def run(prop, replay=None):
         cs = extract_cases(r.stdout)
         v.add_tlc(r, "GEN threshold=%d timeout=%d: %d schedules" % (th, to, len(cs)))
         cases.append((th, to, cs[:(500 if quick else 100000)]))
+    # exhaustive single-sender schedules: every order of ticks and completed sends long enough for open -> probe -> closed -> failures again
+    base1 = base.replace('{"s1","s2","s3"}', '{"s1"}')
+    for th, to, mt in ((2, 2, 4), (3, 1, 3)):
+        r = tlc_cfg("_seq.cfg", base1 % (th, to, mt, 6, "TRUE", 13) + "INVARIANT Emit\nCONSTRAINT Stop\nCHECK_DEADLOCK FALSE\n", "BreakerMC", "seq%d" % th, workers=4, timeout=1800)
+        if r.error:
+            raise vlib.ToolError("GEN single sender: " + r.error)
+        cs = extract_cases(r.stdout)
+        if not quick or len(cs) <= 3000:
+            pass
+        else:
+            cs = cs[::len(cs) // 3000 + 1] + [c for c in cs if sum(1 for h in c["hist"] if h["a"] == "finish" and h["ok"]) == 1 and c["hist"][-1]["a"] == "begin"][:1500]
+        v.add_tlc(r, "GEN single sender threshold=%d timeout=%d: %d schedules (exhaustive to length 13)" % (th, to, len(cs)))
+        cases.append((th + 10, to, cs))
     for th, to, cs in cases:
         if len(cs) < 30:
             raise vlib.ToolError("GEN produced only %d schedules" % len(cs))
         cpath, rpath, tpath = os.path.join(w, "cases%d.ndjson" % th), os.path.join(w, "report%d.json" % th), os.path.join(w, "trace%d.ndjson" % th)
+        wn = "gen%d" % th
         write_ndjson(cpath, cs)
         run_harness("vh", ["breaker-replay", cpath, rpath, tpath])
         rep = load_report(rpath)
         v.add_report(rep)
+        label = th
+        th = th % 10
         const = ["CONSTANTS", '  Senders = {"s1","s2","s3"}', "  Threshold = %d" % th, "  ResetTimeout = %d" % to, "  MaxTime = 1000000", "  MaxSends = 1000000", "  SingleProbe = TRUE", "  MaxHist = 1000000"]
-        ok = tv_blocks(v, prop, SPEC, "BreakerTrace", const, ["RContract", "RNoLoss"], tpath, "gen%d" % th)
+        ok = tv_blocks(v, prop, SPEC, "BreakerTrace", const, ["RContract", "RNoLoss"], tpath, wn)
         v.notes.append("threshold=%d timeout=%d: %d schedules replayed, %d trace blocks accepted by TLC" % (th, to, rep["total"], ok))
     return v.finish()
